@@ -71,6 +71,8 @@ func init() {
 		"strings.IndexByte":                icIndexByteString,
 		"internal/bytealg.Count":           icCountByte,
 		"strings.NewReplacer":              icNewReplacer,
+		"sort.Slice":                       icSortSlice,
+		"sort.SliceStable":                 icSortSlice,
 		"(*strings.Replacer).Replace":      icReplacerReplace,
 		"(*strings.Builder).WriteString":   icBuilderWriteString,
 		"(*strings.Builder).WriteByte":     icBuilderWriteByte,
@@ -609,6 +611,36 @@ func icCountByte(fr *frame, args []value) value {
 		r = st.Add(r, st.Ite(st.Eq(v.(*Term), args[1].(*Term)), BV(1, 64), BV(0, 64)))
 	}
 	return r
+}
+
+// sort.Slice / sort.SliceStable (the library versions go through reflection):
+// an insertion sort that calls the caller's less function and swaps the
+// elements in place; a symbolic comparison forks.  Insertion sort is stable;
+// sort.Slice promises no order between equal elements, so a harness must not
+// depend on it either.
+func icSortSlice(fr *frame, args []value) value {
+	x := args[0]
+	if ia, ok := x.(iface); ok {
+		x = ia.v
+	}
+	vs, ok := x.([]value)
+	if !ok {
+		panic(pathAbort{fmt.Sprintf("sort.Slice of %T", x)})
+	}
+	for i := 1; i < len(vs); i++ {
+		for j := i; j > 0; j-- {
+			r := fr.m.call(fr, 0, args[1], []value{BV(uint64(j), 64), BV(uint64(j-1), 64)})
+			c, _ := r.(*Term)
+			if c == nil {
+				panic(pathAbort{"sort.Slice: less did not return a condition"})
+			}
+			if !fr.m.branch(c) {
+				break
+			}
+			vs[j], vs[j-1] = vs[j-1], vs[j]
+		}
+	}
+	return nil
 }
 
 // strings.Builder: the text built so far is kept beside the machine, keyed
